@@ -126,12 +126,12 @@ func guardedBy(c *Ctx, rule string, fn, pred *ssa.Function, queryParam int, what
 
 // Counted describes a loop controlled by an integer φ in its header.
 type Counted struct {
-	Phi   *ssa.Phi
-	Idx   *E   // the φ's symbol
-	Init  *E   // value on loop entry
-	Step  int64
+	Phi    *ssa.Phi
+	Idx    *E // the φ's symbol
+	Init   *E // value on loop entry
+	Step   int64
 	StepOK bool
-	Cont  Ref // continue condition
+	Cont   Ref // continue condition
 }
 
 // countedLoop recognises a loop whose header condition compares an integer φ
@@ -331,7 +331,7 @@ type LoopSum struct {
 	Early Ref // condition of taking an early exit in the current iteration
 	Any   Ref
 	Coll  *E
-	Elem  []*E // atoms of Early that mention the loop-variant values
+	Elem  []*E   // atoms of Early that mention the loop-variant values
 	Why   string // non-empty: the loop does not qualify
 }
 
